@@ -281,6 +281,15 @@ def run(ctx):
                  seal(b"", b"\x01\x00"), seal(b"", b"\x01\x05"), seal(b"", b"\x01\x04\x06")):
         add("degenerate", blob, None)
     res = sandbox.pmap(_session, jobs, timeout=WALL, mem=MEM)
+    # a child that ran into the address-space limit (MemoryError outside the calls, or a codec library that
+    # crashes when malloc fails) says nothing about the input by itself: those sessions are repeated under a
+    # much higher cap and judged by their peak RSS like every other one
+    redo = [i for i, (st, val) in enumerate(res) if st in ("memory", "died")]
+    if redo:
+        again = sandbox.pmap(_session, [jobs[i] for i in redo], timeout=WALL, mem=8 << 30, workers=4)
+        for i, r in zip(redo, again):
+            ctx.count("rerun-without-address-space-limit", "%s->%s" % (res[i][0], r[0]))
+            res[i] = r
     for (data, seq, pw), lab, (st, val) in zip(jobs, labels, res):
         key = (zlib.crc32(data), tuple(seq), pw)
         family = lab.split(":")[1].split("-")[0] if ":" in lab else lab
